@@ -669,7 +669,9 @@ class InstS(Stub):
                 raise AttributeError(attr)
             if decos & {"property", "cached_property"}:
                 return self._call(fn, (), {})
-            return lambda *a, **k: self._call(fn, a, k)
+            bound_ = lambda *a, **k: self._call(fn, a, k)
+            bound_._evaluated = True
+            return bound_
         if attr in cls.consts:
             return Folder(cls.repo, cls.module).fold(cls.consts[attr])
         raise AttributeError(attr)
@@ -989,6 +991,7 @@ class Ev(BlockEval):
             finally:
                 self.ctx.pop()
 
+        call._evaluated = True
         return call
 
     def cond(self, e: ast.AST, folder: Optional[F] = None) -> Any:
@@ -1005,16 +1008,56 @@ class Ev(BlockEval):
                 if isinstance(e.op, ast.Or) and r:
                     return r
             return r
+        if isinstance(e, ast.IfExp):  # `a if c else b` as a condition: c, then the chosen branch
+            return self.cond(e.body, fo) if self.cond(e.test, fo) else self.cond(e.orelse, fo)
+        if isinstance(e, ast.Call) and isinstance(e.func, ast.Name) and e.func.id == "bool" and "bool" not in fo.local and len(e.args) == 1 and not e.keywords:
+            return bool(self.cond(e.args[0], fo))
+        # a call of a helper whose body is evaluated here: the helper's own conditions (incl. a returned condition) are the atoms
+        transparent = isinstance(e, ast.Call) and self._evaluated_callee(e, fo)
+        if transparent:
+            Ev.cond_depth += 1
+            Ev.traced_return = False
         try:
             r = fo.fold(e)
         except NotConst as ex:
             raise Unknown(f"`{ast.unparse(e)[:60]}`: {ex}")
         except PROGRAM_ERRORS as ex:
             raise Raised(f"{type(ex).__name__}({', '.join(map(repr, ex.args))[:40]}) in `{ast.unparse(e)[:60]}`", e)
+        finally:
+            if transparent:
+                Ev.cond_depth -= 1
+        if transparent and Ev.traced_return:
+            return r
         if self.conds is not None and not isinstance(e, ast.Constant) and not (isinstance(e, ast.Name) and e.id in self.stored):
             rec = self.conds.setdefault(id(e), [e, []])
             rec[1].append((self.tag, tuple(self.ctx), bool(r)))
+            last = getattr(self.conds, "last", None)
+            if last is not None:  # the last condition met for an atom of the collection loop (names what dropped it)
+                for item in reversed(self.ctx):
+                    if isinstance(item, (PairIdx, IdxS)):
+                        break
+                    flat_ = list(item) if isinstance(item, tuple) else [item]
+                    at = [x for x in flat_ if isinstance(x, AtomS)]
+                    if at:
+                        last[(self.tag, at[0].k)] = (e, bool(r))
+                        break
         return r
+
+    cond_depth = 0  # > 0 while a helper called as a condition is evaluated: a condition it returns is traced
+    traced_return = False
+
+    def _evaluated_callee(self, e: ast.Call, fo: "F") -> bool:
+        f = e.func
+        try:
+            if isinstance(f, ast.Name):
+                fn = fo.local[f.id] if f.id in fo.local else self.helper(f.id)
+            elif isinstance(f, ast.Attribute) and all(isinstance(n, (ast.Name, ast.Attribute, ast.Load)) for n in ast.walk(f.value)) and not (isinstance(f.value, ast.Name) and f.value.id not in fo.local):
+                fn = getattr(fo.fold(f.value), f.attr, None)
+            else:
+                return False
+        except Exception:
+            return False
+        return bool(getattr(fn, "_evaluated", False))
 
     # ---- statements
     def _assign(self, t: ast.AST, v: Any) -> None:
@@ -1105,6 +1148,13 @@ class Ev(BlockEval):
                     self.env[a.asname or a.name] = getattr(lib[st.module], a.name)
         elif isinstance(st, (ast.Global, ast.Nonlocal)):
             pass
+        elif isinstance(st, ast.Return) and Ev.cond_depth > 0 and st.value is not None and (isinstance(st.value, (ast.BoolOp, ast.Compare, ast.IfExp)) or (isinstance(st.value, ast.UnaryOp) and isinstance(st.value.op, ast.Not)) or (isinstance(st.value, ast.Call) and isinstance(st.value.func, ast.Name) and st.value.func.id == "bool")):
+            v = self.cond(st.value)
+            Ev.traced_return = True
+            raise _Stop("return", v)
+        elif isinstance(st, ast.Return) and Ev.cond_depth > 0 and (st.value is None or isinstance(st.value, ast.Constant) or (isinstance(st.value, ast.Name) and st.value.id in self.stored)):
+            Ev.traced_return = True  # the value is fixed by the path, whose conditions are traced
+            raise _Stop("return", self.fold(st.value) if st.value is not None else None)
         elif isinstance(st, ast.Expr) and isinstance(st.value, (ast.Yield, ast.YieldFrom)):
             # a generator helper is evaluated eagerly: the values it yields are collected in order
             if self.yielded is None:
@@ -1141,6 +1191,7 @@ class Ev(BlockEval):
                 finally:
                     self.ctx.pop()
 
+            call._evaluated = True
             self.env[st.name] = call
         elif isinstance(st, ast.Expr) and isinstance(st.value, ast.Call):
             c = st.value
@@ -1288,6 +1339,14 @@ def optstr(opts) -> str:
     return "options {" + (", ".join(on) if on else "none") + "}"
 
 
+class Trace(dict):
+    """condition trace (id(node) -> [node, records]) plus, per run and atom, the last condition met in the collection loop"""
+
+    def __init__(self):
+        dict.__init__(self)
+        self.last: Dict[Tuple[Any, int], Tuple[ast.AST, bool]] = {}
+
+
 class ClashEval:
     """Everything the evaluation of find_clashes gives: listed pairs per option combination, KD-tree radii, condition trace."""
 
@@ -1298,7 +1357,7 @@ class ClashEval:
             raise Unknown(f"parameters of find_clashes are {params}")
         self.residues_param = params[0]
         self.clusters = build_structure(radii, extra)
-        self.trace: Dict[int, Any] = {}
+        self.trace: Dict[int, Any] = Trace()
         self.points: Dict[Any, List[Any]] = {}  # run tag -> atoms of the KD-tree points, in index order
         self.query_stmts: List[Any] = []  # statements that query the KD-tree
         self.radius: Dict[Tuple, List[float]] = {}
@@ -1530,6 +1589,16 @@ class ClashEval:
         return out
 
 
+def _compound(node: ast.AST) -> bool:
+    """a traced 'atomic' condition that still holds boolean structure of its own (read as a whole, not atom by atom)"""
+    inner = [n for n in ast.walk(node) if n is not node]
+    if any(isinstance(n, (ast.BoolOp, ast.IfExp, ast.Lambda, ast.ListComp, ast.SetComp, ast.DictComp, ast.GeneratorExp, ast.Dict)) for n in inner):
+        return True
+    if sum(1 for n in ast.walk(node) if isinstance(n, ast.Compare)) >= 2:
+        return True
+    return isinstance(node, ast.Subscript)
+
+
 def _K(fi, what: str) -> str:
     return f"{fi.module.name}:{fi.qualname}:{what}"
 
@@ -1621,6 +1690,11 @@ def check_find_clashes(chk, fi, radii: Dict[str, float], extra: float) -> Option
     extra_f = [t for t in conds if t[1] is None and t[3]]
     unread_c = [t for t in conds if t[1] is None and not t[3]]
     for node, _, _, _, n, const in extra_f:
+        if not const and _compound(node):
+            # a compound the trace could not take apart (table look-up, comprehension, lambda ...): not read, so no verdict on it -
+            # the decision table above has compared the listed pairs with the definition on every representative
+            chk.error("option-extra-filter", fi.site(node), f"condition `{norm(node)[:70]}` in the clash loop is a compound expression the closed-world reading cannot take apart into atomic conditions: not decided whether it is an additional filter")
+            continue
         chk.violation("option-extra-filter", fi.site(node), f"condition `{norm(node)[:70]}` in the clash loop is {'constant on all representatives' if const else 'not a function of one feature of the definition (option, same residue, nucleotide, equal names, distance vs threshold, occupancy)'}: an additional filter", _K(fi, f"extra:{norm(node)[:50]}"))
     if not extra_f:
         chk.ok("option-extra-filter", site, f"{sum(1 for t in conds if t[3])} atomic conditions in the clash loop, each a function of one feature of the definition: " + "; ".join(f"`{norm(t[0])[:40]}` = {'not ' if t[2] else ''}{t[1]}" for t in conds if t[3])[:600])
